@@ -250,6 +250,12 @@ func (t *terminal) handleCommand(r escapeReader) bool {
 		debugPrintln("Memory Unlock") // TODO*/
 
 	default:
+		// nF escape sequences: ESC, intermediates 0x20-0x2F, one final byte. Unknown: skip whole.
+		for b >= 0x20 && b <= 0x2f {
+			if b, err = r.ReadByte(); err != nil {
+				return false
+			}
+		}
 		return false
 	}
 	return true
